@@ -107,7 +107,8 @@ def worker(ck: Check, job):
                 'what': '%s thr=%s: %r gives %r but %r gives %r' % (code, thr, ''.join(t[0] for t in tl),
                                                                   [(o['start'], o['end'], o['text']) for o in oa],
                                                                   ''.join(t[0] for t in tv), [(o['start'], o['end'], o['text']) for o in ob])}
-    ck.prove_none(name, assm, guard(cov, bad), on_cex, lambda m, c: None)
+    split = [[st_low.w[i] == j for j in range(len(reps))] for i in range(k)]
+    ck.prove_none(name, assm, guard(cov, bad), on_cex, lambda m, c: None, case_split=split)
     ck.cover(name + ':recased-number', assm + ([z3.UGE(B64(A.len), 1)] if A is not None else []) + [z3.Or(*[c != 0 for c in casev])],
              lambda m: {'lang': code, 'recased': [t[0] for t in concrete_tokens_var(m)]})
     ck.bounds['stream_words'] = k
